@@ -10,7 +10,7 @@
      src/core/consensus/blockchain.rs  add_block_failure / add_block_transactions_back,
                                       the golden-ticket count check of Blockchain::validate
      src/core/consensus_thread.rs    the golden ticket the timer path hands to bundle_block
-   as they are at /repo HEAD (after the fix: commits listed in known_findings.txt).
+   as they are at /repo HEAD e1b5241 (after the fix: commits listed in known_findings.txt).
    No proofs here.
 
    What is abstract.  The economic part of generate_consensus_values (fees,
@@ -204,6 +204,14 @@ Definition dup_spend (l : list tx) : bool := has_dup (spent_keys l).
 (* [agreesb cC cV]: every value that Block::validate recomputes ([cV] = cv of the FINISHED
    block) equals what Block::create wrote into the header from [cC] = cv of the half-built
    block.  Field by field: see C07_agrees_fields. *)
+(* fix f640126: `carried.zip(cv.rebroadcasts)` -- pairwise, as far as the shorter list goes, the
+   rebroadcasts carried by the block consume the same utxoset keys as the expected ones *)
+Fixpoint same_inputs (carried expected : list tx) : bool :=
+  match carried, expected with
+  | t :: r, e :: r' => eqb_lN (t_inputs t) (t_inputs e) && same_inputs r r'
+  | _, _ => true
+  end.
+
 Definition agreesb (dbg : bool) (hchain : list N -> N) (cC cV : cvrec) : bool :=
   let C := c_econ cC in
   let V := c_econ cV in
@@ -214,9 +222,10 @@ Definition agreesb (dbg : bool) (hchain : list N -> N) (cC cV : cvrec) : bool :=
   && (e_burnfee V =? e_burnfee C) && (e_difficulty V =? e_difficulty C)
   && (c_total_rebroadcast_slips cV =? nsum (map t_atr_slips (c_rebroadcasts cC)))
   && (c_rebroadcast_hash cV =? hchain (map t_id (c_rebroadcasts cC)))
+  && same_inputs (c_rebroadcasts cC) (c_rebroadcasts cV)
   && match c_fee_tx cC with
      | Some f => match c_fee_tx cV with Some f' => t_id f' =? t_id f | None => false end
-     | None => true
+     | None => negb (is_some (c_fee_tx cV))     (* fix 60ba6d1: a due fee transaction may not be missing *)
      end.
 
 (* what the pool may hold: no golden ticket (routed to the ticket map), no producer-only type *)
@@ -236,9 +245,12 @@ Section Producer.
   Variable cv : chain -> list N -> block -> cvrec.
   (* Transaction::validate(utxoset, blockchain, true) *)
   Variable tx_valid : chain -> list N -> tx -> bool.
-  (* GoldenTicket::create(parent hash, random, key).validate(parent difficulty) for the ticket
-     carried by a GoldenTicket transaction *)
+  (* Block::validate's verdict on the ticket carried by a GoldenTicket transaction: its key is
+     not the all-zero key and GoldenTicket::create(parent hash, random, key).validate(parent difficulty) *)
   Variable gt_ok : chain -> tx -> bool.
+  (* Mempool::golden_ticket_solves_tip, the screen of bundle_block (fix e0300b2): the solution
+     only -- Block::validate additionally refuses a ticket naming the all-zero key (fix b8552b5) *)
+  Variable gt_screen : chain -> tx -> bool.
   (* BurnFee::return_routing_work_needed_to_produce_block_in_nolan(burnfee, ts, previous ts, heartbeat) *)
   Variable work_needed : N -> N -> N -> N -> N.
   (* Blockchain::check_total_supply after the block was wound: utxoset + graveyard + treasury +
@@ -334,6 +346,7 @@ Section Producer.
     let ftn := count_type TFee l in
     if 1 <? ftn then false
     else if (0 <? ftn) && negb (is_some (c_fee_tx c)) then false
+    else if (ftn =? 0) && is_some (c_fee_tx c) then false      (* fix 60ba6d1 *)
     else if 0 <? ftn then
       match last_index TFee l, c_fee_tx c with
       | Some i, Some expected =>
@@ -366,6 +379,7 @@ Section Producer.
       | None => Ok None
       | Some p =>
           if par_ghost p then Ok (Some true) else
+          if negb (b_id b =? par_id p + 1) then Ok (Some false) else      (* fix 6b3137c *)
           do t1 <- uadd dbg (par_treasury p) (e_total_payout_treasury e);
           do tr <- usub dbg t1 (e_total_payout_atr e);
           if vu && negb (b_treasury b =? tr) then Ok (Some false) else
@@ -389,6 +403,7 @@ Section Producer.
     | None =>
         if vu && negb (c_total_rebroadcast_slips c =? b_rb_slips b) then Ok false else
         if vu && negb (c_rebroadcast_hash c =? b_rb_hash b) then Ok false else
+        if vu && negb (same_inputs (atr_txs (b_txs b)) (c_rebroadcasts c)) then Ok false else
         if negb (b_merkle b =? mroot (map t_id (b_txs b))) then Ok false else
         if negb (fee_tx_check vu c (b_txs b)) then Ok false else
         Ok (txs_sweep n (b_txs b))
@@ -411,13 +426,19 @@ Section Producer.
   Definition Known_C07 (dbg : bool) (n : node) (creator ts : N) (gt : option tx) (drained : list tx)
              (b : block) : bool :=
     let bc := create_pre n creator ts gt drained in
-    let cV := cv (n_chain n) (n_ledger n) b in
-    (* atr-payout-cap-reads-unfilled-treasury: cv of the finished block differs from what
-       create wrote, or a rebroadcast transaction carries an input amount that is not in the ledger *)
-    negb (agreesb dbg hchain (snd bc) cV)
-    || negb (forallb (tx_valid (n_chain n) (n_ledger n)) (b_txs b))
     (* type-issuance-pool *)
-    || (0 <? count_type TIssuance drained).
+    (0 <? count_type TIssuance drained)
+    (* pooled-input-ages-past-window: a transaction of the block does not validate on the parent
+       state (a pooled transaction whose input has left the window while it was pooled) *)
+    || negb (forallb (tx_valid (n_chain n) (n_ledger n)) (b_txs b))
+    (* left-out-transaction-carried-the-work: what create kept carries less than the work needed *)
+    || match v_tip (view (n_chain n)) with
+       | Some p => nsum (map t_work (b_txs (fst bc)))
+                   <? work_needed (par_burnfee p) ts (par_ts p) (v_heartbeat (view (n_chain n)))
+       | None => false
+       end
+    (* zero-key-ticket-passes-screen *)
+    || match gt with Some g => negb (gt_ok (n_chain n) g) | None => false end.
 
   (* ---------------------------------------------------------------- the pool *)
   Record mpool := mkM {
@@ -497,7 +518,7 @@ Section Producer.
         (del_gt (t_target g) (del_gt (tip_hash_of n) (m_gts m))).
   Definition screen_ticket (n : node) (m : mpool) (gt : option tx) : option tx * mpool :=
     match gt with
-    | Some g => if gt_ok (n_chain n) g then (Some g, m) else (None, drop_ticket n m g)
+    | Some g => if gt_screen (n_chain n) g then (Some g, m) else (None, drop_ticket n m g)
     | None => (None, m)
     end.
 
@@ -601,6 +622,18 @@ Section Producer.
     end.
 End Producer.
 
+(* ---------------------------------------------------------------- the window (fix bb88717)
+   [key_block k] = the block id that is part of utxoset key [k].  An input can be spent in block
+   [next] iff key_block + genesis_period >= next; the outputs of block next - genesis_period - 1
+   are the ones block [next] rebroadcasts or collects. *)
+Definition young_tx (key_block : N -> N) (gp next : N) (t : tx) : bool :=
+  forallb (fun k => next <=? key_block k + gp) (t_inputs t).
+Definition young_pool (key_block : N -> N) (gp next : N) (l : list tx) : bool :=
+  forallb (young_tx key_block gp next) l.
+(* the rebroadcasts of block [next] consume outputs of block next - gp - 1 *)
+Definition rebroadcasts_due (key_block : N -> N) (gp next : N) (c : cvrec) : bool :=
+  forallb (fun k => key_block k + gp + 1 =? next) (flat_map t_inputs (c_rebroadcasts c)).
+
 (* ---------------------------------------------------------------- harness glue
    One production round with the Section variables instantiated by tables of what the real
    functions returned in that round: [cvC] = the ConsensusValues Block::create computed
@@ -625,6 +658,9 @@ Record rcase := mkRC {
   rc_cvV : cvrec;
   rc_valid : list (N * bool);
   rc_gt_ok : list (N * bool);
+  rc_gt_screen : list (N * bool);
+  rc_key_block : list (N * N);
+  rc_gp : N;
   rc_hchain : list (list N * N);
   rc_mroot : list (list N * N);
   rc_supply_ok : bool;
@@ -637,9 +673,12 @@ Definition rc_cvf (c : rcase) : unit -> list N -> block -> cvrec :=
   fun _ _ b => if b_signed b then rc_cvV c else rc_cvC c.
 Definition rc_validf (c : rcase) : unit -> list N -> tx -> bool := fun _ _ t => lookup_b (rc_valid c) (t_id t).
 Definition rc_gtf (c : rcase) : unit -> tx -> bool := fun _ t => lookup_b (rc_gt_ok c) (t_id t).
+Definition rc_gtsf (c : rcase) : unit -> tx -> bool := fun _ t => lookup_b (rc_gt_screen c) (t_id t).
+Definition rc_key_blockf (c : rcase) : N -> N :=
+  fun k => match aget_unsorted k (rc_key_block c) with Some b => b | None => 0 end.
 
 Definition run_rcase (wn : N -> N -> N -> N -> N) (c : rcase) : list (list N) :=
-  round unit (rc_viewf c) (rc_cvf c) (rc_validf c) (rc_gtf c)
+  round unit (rc_viewf c) (rc_cvf c) (rc_validf c) (rc_gtf c) (rc_gtsf c)
         wn (fun _ _ _ => rc_supply_ok c) (lookup_l (rc_hchain c)) (lookup_l (rc_mroot c))
         true rc_node rc_node (rc_creator c) (rc_pool c) (rc_ts c) (rc_stake c) (rc_order c) (rc_block_hash c).
 
@@ -648,7 +687,7 @@ Definition rc_tip_hash (c : rcase) : N :=
   match v_tip (rc_view c) with Some p => par_hash p | None => 0 end.
 (* the ticket bundle_block goes on with: the pooled one for the tip, if it solves the tip *)
 Definition rc_gt (c : rcase) : option tx :=
-  fst (screen_ticket unit (rc_viewf c) (rc_gtf c) rc_node (rc_pool c) (pick_gt (rc_pool c) (rc_tip_hash c))).
+  fst (screen_ticket unit (rc_viewf c) (rc_gtsf c) rc_node (rc_pool c) (pick_gt (rc_pool c) (rc_tip_hash c))).
 Definition rc_drained (c : rcase) : list tx :=
   match rc_stake c with
   | Some s =>
@@ -663,8 +702,8 @@ Definition rc_created (c : rcase) : res block :=
          true rc_node (rc_creator c) (rc_ts c) (rc_gt c) (rc_drained c).
 Definition rc_pre (c : rcase) : block * cvrec :=
   create_pre unit (rc_viewf c) (rc_cvf c) rc_node (rc_creator c) (rc_ts c) (rc_gt c) (rc_drained c).
-Definition rc_known (c : rcase) (b : block) : bool :=
-  Known_C07 unit (rc_viewf c) (rc_cvf c) (rc_validf c) (lookup_l (rc_hchain c))
+Definition rc_known (wn : N -> N -> N -> N -> N) (c : rcase) (b : block) : bool :=
+  Known_C07 unit (rc_viewf c) (rc_cvf c) (rc_validf c) (rc_gtf c) wn
             true rc_node (rc_creator c) (rc_ts c) (rc_gt c) (rc_drained c) b.
 Definition rc_accepts (wn : N -> N -> N -> N -> N) (c : rcase) (b : block) : res bool :=
   node_accepts unit (rc_viewf c) (rc_cvf c) (rc_validf c) (rc_gtf c) wn
